@@ -269,6 +269,9 @@ pub fn cases(seed: u64, thorough: bool, faults: &[Value]) -> Vec<LCase> {
                         if off + wd > n { continue; }
                         for i in 0..wd { b[off + i] = ((val >> (8 * i)) & 0xFF) as u8; }
                     }
+                    // `at` > 0: the file is cut behind its numeric header
+                    let at = f["at"].as_u64().unwrap_or(0) as usize;
+                    if at > 0 && at <= n { b.truncate(at); }
                 }
                 _ => continue,
             }
